@@ -186,7 +186,7 @@ func addLifeStuff(r rng, p *sdl.Program) {
 	for i := 1; i <= n; i++ {
 		pr := &sdl.Proc{ID: fmt.Sprintf("pp%d", i), Class: pick(r, classes), OrderClass: pick(r, orderClasses), Order: pick(r, orderVals), Props: r.p(0.5), Lazy: r.p(0.35)}
 		if pr.Props {
-			pr.PropsRet = pick(r, []string{"", "", "empty", "same"})
+			pr.PropsRet = pick(r, []string{"", "", "empty", "same", "inplace"})
 		}
 		if pr.OrderClass != "" && r.p(0.3) {
 			// the processor settles its order in its component-factory hook
@@ -646,7 +646,7 @@ func genConfig(r rng, seed uint64, id string, merge bool) *sdl.Program {
 	// user processors interleave with the built-in configuration stages
 	classes := []string{"inst", "smart", "plain"}
 	for i := 0; i < r.n(0, 3); i++ {
-		p.Procs = append(p.Procs, &sdl.Proc{ID: fmt.Sprintf("pp%d", i), Class: pick(r, classes), OrderClass: pick(r, orderClasses), Order: pick(r, []int{-5, 0, 1, 3, 4, 6, 9, 20}), Props: r.p(0.6), Lazy: r.p(0.3), PropsRet: pick(r, []string{"", "", "empty", "same"})})
+		p.Procs = append(p.Procs, &sdl.Proc{ID: fmt.Sprintf("pp%d", i), Class: pick(r, classes), OrderClass: pick(r, orderClasses), Order: pick(r, []int{-5, 0, 1, 3, 4, 6, 9, 20}), Props: r.p(0.6), Lazy: r.p(0.3), PropsRet: pick(r, []string{"", "", "empty", "same", "inplace"})})
 	}
 	return p
 }
